@@ -1475,7 +1475,8 @@ def gen_odd(tier):
                 for rn in ODD_NONPOS + ODD_ENC:
                     yield (api, kind, rn)
         for kind in ODD_AUTO_KINDS:
-            for flag in ("plain", "wrapdateline+check_and_fix"):
+            # (check_and_fix may legitimately rebuild an INVALID input such as the zero-area polygon)
+            for flag in ("plain", "wrapdateline" if kind == "polygon-flat" else "wrapdateline+check_and_fix"):
                 yield ("to_crs", kind, "auto:" + flag)
 
     return gen
@@ -1502,19 +1503,19 @@ def run_odd(case):
         call = f"densify({coords}, {rtxt})"
 
         def fn():
-            return ("LineString", sg.LineString([tuple(map(float, c)) for c in densify(list(coords), res)]).wkb, None)
+            return ("LineString", sg.LineString([tuple(map(float, c)) for c in densify(list(coords), res)]), None)
     elif api == "segmented":
         call = f"Geometry({shp.wkt}, EPSG:{src}).segmented({rtxt})"
 
         def fn():
             o = Geometry(shp, f"EPSG:{src}").segmented(res)
-            return (o.geom.geom_type, o.geom.wkb, str(o.crs))
+            return (o.geom.geom_type, o.geom, str(o.crs))
     else:
         call = f"Geometry({shp.wkt}, EPSG:{src}).to_crs(EPSG:{dst}, resolution={rtxt}{', ' + flag if flag != 'plain' else ''})"
 
         def fn():
             o = Geometry(shp, f"EPSG:{src}").to_crs(f"EPSG:{dst}", res, **flag_kw(flag))
-            return (o.geom.geom_type, o.geom.wkb, str(o.crs))
+            return (o.geom.geom_type, o.geom, str(o.crs))
 
     status, val = run_guarded(fn)
     if status == "timeout":
@@ -1534,17 +1535,19 @@ def run_odd(case):
             return r  # refused: fine
         fail(f"{tag}:{kind}:raised-{tname}", f"{call} raised {tname}: {text} (at {site})")
         return r
-    from shapely import wkb as _wkb  # pylint: disable=import-outside-toplevel
-
-    gtype, blob, crs_s = val
-    out = _wkb.loads(blob)
+    gtype, out, crs_s = val  # the geometry travels pickled (keeps LinearRing, which WKB cannot express)
     r.outcome += ":returned"
+    if gtype != shp.geom_type or out.geom_type != gtype:
+        fail(f"{tag}:{kind}:type-changed", f"{call}: {shp.geom_type} became {gtype}")
+        return r
     if api == "to_crs":
         if crs_s != f"EPSG:{dst}":
             fail("to_crs:result-crs", f"{call}: labelled {crs_s}")
         eff = None
         if cls == "number-type":
             eff = float(res)
+        if cls == "auto-on-zero-area" and shp.length > 0:
+            eff = shp.length / 100  # ~100 points along the length (maintainers' contract for zero-area 'auto')
         # non-positive / nan / auto: no resolution to honour; structure, original vertices, on-edge still hold
         judge_long(fail, tag + ":" + kind, call, shp, out, INF if eff is None else eff, src, dst)
     else:
